@@ -201,6 +201,108 @@ def rule_b(ctx):
     ctx.info('b', 'DatagramState (outgoing queue) is not touched by the rejection branch; queued early datagrams are sent as 1-RTT datagrams. Not claimed either way (DESIGN section 7).')
 
 
+def _plain_local(op):
+    return op[1][0] if op[0] in ('c', 'm') and not op[1][1] else None
+
+
+def _copied_local(body, op, hops=3):
+    """(source local, block of the last copy) of an operand that is a plain local reached through single-definition copies"""
+    l, at = _plain_local(op), None
+    for _ in range(hops):
+        if l is None:
+            return None, None
+        ds = body.defs_of(l)
+        if len(ds) == 1 and ds[0][0] == 'stmt' and ds[0][3][0] == 'use' and _plain_local(ds[0][3][1]) is not None:
+            l, at = _plain_local(ds[0][3][1]), ds[0][1]
+        else:
+            break
+    return l, at
+
+
+def _is_int(op, n):
+    return op[0] == 'k' and op[1] == 'int' and str(op[2]) == str(n)
+
+
+def counting_loop_test(F, body, br, site):
+    """`let mut i = 0; while i < self.next[..] { .. i += 1 .. }` == `for i in 0..self.next[..]` for the call `site` in its body:
+    the branch is the test of a counter that starts at 0, is bumped by exactly 1 exactly once on every way back to the test,
+    is compared `<` with self.next[..] (not written in this function), and whose value AT THE TEST numbers the stream handed to `site`
+    (StreamId::new(.., i) is evaluated before the bump).  Anything else (other start, other step, `<=`, `i + 1 <`, bump before the
+    id is built, a way round the bump) is not this shape."""
+    t_true, t_false = br.target(1), br.target(0)
+    in_true = site.bb in body.reachable_from(t_true, avoid=[br.bb])
+    if in_true == (site.bb in body.reachable_from(t_false, avoid=[br.bb])):
+        return False
+    t_in = t_true if in_true else t_false
+    # the bool switched on: one comparison (through `!`)
+    l, truth = _plain_local(body.blocks[br.bb]['t'][1]), in_true
+    for _ in range(4):
+        ds = body.defs_of(l) if l is not None else []
+        if len(ds) != 1 or ds[0][0] != 'stmt':
+            return False
+        _, cbb, cidx, rv = ds[0]
+        if rv[0] == 'un' and rv[1] == 'Not':
+            l, truth = _plain_local(rv[2]), not truth
+        elif rv[0] == 'use':
+            l = _plain_local(rv[1])
+        else:
+            break
+    if rv[0] != 'bin' or rv[1] not in ('Lt', 'Le', 'Gt', 'Ge') or not (cbb == br.bb or body.succ[cbb] == [br.bb]):
+        return False
+    op, a, b = rv[1], rv[2], rv[3]
+    if op in ('Gt', 'Ge'):
+        op, a, b = {'Gt': 'Lt', 'Ge': 'Le'}[op], b, a
+    if not truth:
+        op, a, b = {'Lt': 'Le', 'Le': 'Lt'}[op], b, a
+    if op != 'Lt':
+        return False
+    # bound: self.next[..], not written by this function
+    if describer(F, body).operand(b, cbb, cidx) != ('index', ('field', ('param', 1, 'self'), 'next')):
+        return False
+    if any(F.root_of(w.body).id == body.id for w in field_writes(F, 'state::StreamsState', 'next', crate='quinn_proto')):
+        return False
+    # counter: exactly `= 0` before the loop and `= counter + 1` in it, never borrowed
+    i, copied_at = _copied_local(body, a)
+    if i is None or i <= body.argc:
+        return False
+    ds = body.defs_of(i)
+    init = [x for x in ds if x[0] == 'stmt' and x[3][0] == 'use' and _is_int(x[3][1], 0)]
+    bump = []
+    for x in ds:
+        if x[0] != 'stmt' or x in init:
+            continue
+        rv = x[3]
+        if rv[0] == 'use' and rv[1][0] in ('c', 'm') and [e[:2] for e in rv[1][1][1]] == [['f', '0']]:   # (counter + 1 checked).0
+            td = body.defs_of(rv[1][1][0])
+            rv = td[0][3] if len(td) == 1 and td[0][0] == 'stmt' else rv
+        if rv[0] == 'bin' and rv[1] in ('Add', 'AddWithOverflow', 'AddUnchecked') and \
+                ((_plain_local(rv[2]) == i and _is_int(rv[3], 1)) or (_plain_local(rv[3]) == i and _is_int(rv[2], 1))):
+            bump.append(x)
+    if len(ds) != 2 or len(init) != 1 or len(bump) != 1:
+        return False
+    if any(st[0] == '=' and st[2][0] in ('ref', 'ptr') and st[2][2][0] == i for _, _, st in body.stmts()):
+        return False
+    init_bb, bump_bb = init[0][1], bump[0][1]
+    loop = body.reachable_from(t_in, avoid=[br.bb])
+    if not body.dominates(init_bb, br.bb) or init_bb in loop or bump_bb not in loop or not body.dominates(br.bb, bump_bb):
+        return False
+    if copied_at is not None and (not body.dominates(copied_at, br.bb) or {init_bb, bump_bb} & body.reachable_from(copied_at, avoid=[br.bb])):
+        return False
+    # exactly one bump per iteration
+    if path_avoiding(body, [t_in], [br.bb], {bump_bb}) is not None or any(bump_bb in body.reachable_from(x, avoid=[br.bb]) for x in body.succ[bump_bb]):
+        return False
+    # the stream handed to `site` is numbered by the value the counter had at the test
+    recv = arg_desc(F, site, 0)
+    after_bump = body.reachable_from(body.succ[bump_bb], avoid=[br.bb]) | {bump_bb}
+    for k in body.calls_to('StreamId::new'):
+        if len(k.args) == 3 and body.dominates(br.bb, k.bb) and body.dominates(k.bb, site.bb) and k.bb not in after_bump \
+                and any(x[0] == 'call' and x[1] == 'StreamId::new' and x[-1] == k.bb for x in walk(recv)):
+            src, at = _copied_local(body, k.args[2])
+            if src == i and (at is None or (at not in after_bump and body.dominates(br.bb, at))):
+                return True
+    return False
+
+
 def rule_c(ctx):
     F = ctx.facts
     r0 = ctx.pfn('StreamsState::retransmit_all_for_0rtt')
@@ -219,7 +321,7 @@ def rule_c(ctx):
         bad = [br for br in skipping if D.has_call(br.desc, 'Send::is_pending')]
         ctx.check(not bad, 'c', 'every_early_stream_rewound', r0, c.where(), 'rewind not conditional on is_pending()',
                   'streams that still have unsent data are not rewound after a Retry: their already-sent prefix is lost for good')
-        ok_skip = [br for br in skipping if D.has_call(br.desc, 'SendBuffer::is_fully_acked') or D.has_field(br.desc, 'fin_pending') or br.desc[0] == 'discr']
+        ok_skip = [br for br in skipping if D.has_call(br.desc, 'SendBuffer::is_fully_acked') or D.has_field(br.desc, 'fin_pending') or br.desc[0] == 'discr' or counting_loop_test(F, r0, br, c)]
         ctx.check(len(skipping) == len(ok_skip), 'c', 'rewind_skip_conditions', r0, c.where(), 'only `nothing sent yet` / missing entry skip the rewind', 'a new condition skips the 0-RTT rewind: %s' % [D.render(br.desc)[:60] for br in skipping if br not in ok_skip])
     sb = ctx.pfn('SendBuffer::retransmit_all_for_0rtt')
     st = [(w, v) for w, v in store_values(ctx, 'SendBuffer', 'unsent', in_fn=sb)]
@@ -278,12 +380,45 @@ def rule_d(ctx):
     ctx.check(len(z) >= 2, 'd', 'zero_rtt_packets_restricted', pp, pp.where(), '%d is_0rtt guards (HANDSHAKE_DONE, CRYPTO)' % len(z), '0-RTT packets are no longer kept free of HANDSHAKE_DONE / CRYPTO frames')
 
 
+def path_avoiding_cut(body, starts, goals, avoid, cut):
+    """path_avoiding on the graph where every block in `cut` only continues to the successors listed for it"""
+    avoid, goals = set(avoid), set(goals)
+    prev = {s: None for s in starts if s not in avoid}
+    q = list(prev)
+    while q:
+        b = q.pop(0)
+        if b in goals:
+            path = []
+            while b is not None:
+                path.append(b)
+                b = prev[b]
+            return path[::-1]
+        for s in (cut[b] if b in cut else body.succ[b]):
+            if s not in avoid and s not in prev:
+                prev[s] = b
+                q.append(s)
+    return None
+
+
+def side_cut(F, body, client):
+    """{branch block: [the only successor]} for the branches whose bool discriminant is `<connection>.side().is_client()` /
+    `.is_server()` (modulo `!`, `== true/false`), in the scenario where the connection is a client (or a server)"""
+    cut = {}
+    for name, says_client in (('Side::is_client', True), ('Side::is_server', False)):
+        for br, t, f in bool_call_edges(F, body, name):
+            inner = bool_norm(br.desc)[0]
+            if inner[3] and D.has_call(inner[3][0], 'Connection::side'):
+                cut[br.bb] = [t if says_client == client else f]
+    return cut
+
+
 def rule_e(ctx):
     F = ctx.facts
     fa = ctx.qfn('State::forward_app_events')
     acc = bool_call_edges(F, fa, 'Connection::accepted_0rtt')
     ctx.floor('e', 'connected_acceptance_tests', len(acc), 1)
     wakes = [(c, arg_desc(F, c, 0)) for c in fa.calls_to('connection::wake_all', 'connection::wake_all_notify')]
+    client_cut = side_cut(F, fa, client=True)
     for m in ('blocked_writers', 'blocked_readers', 'stopped'):
         ok = bool(acc)
         why = 'no branch on accepted_0rtt()'
@@ -293,7 +428,9 @@ def rule_e(ctx):
             if not ws:
                 ok, why = False, 'no wake of self.%s on the accepted_0rtt() == false edge' % m
                 continue
-            p = path_avoiding(fa, [t_rej], set(fa.return_blocks()) | {br.bb}, ws)
+            # only a client holds rejected early streams (check_0rtt answers Err for clients only): the obligation is on the paths of
+            # the scenario `side().is_client()`, wherever that test sits relative to the acceptance test (`c && d` == `d && c`, both pure getters)
+            p = path_avoiding_cut(fa, [t_rej], set(fa.return_blocks()) | {br.bb}, ws, client_cut)
             if p is not None:
                 ok, why = False, 'a path from the accepted_0rtt() == false edge avoids the wake of self.%s: %s' % (m, fmt_path(fa, p))
         ctx.check(ok, 'e', 'rejection_wakes_blocked_stream_tasks', fa, acc[0][0].where() if acc else fa.where(), 'Connected && !accepted_0rtt -> every task in self.%s is woken' % m,
